@@ -82,9 +82,12 @@ class Detrender(_SeriesToSeriesTransformer):
         self : an instance of self
         """
         z = check_series(Z, enforce_univariate=True)
+        # the default is resolved locally, constructor parameters are not
+        # modified by `fit`
         if self.forecaster is None:
-            self.forecaster = PolynomialTrendForecaster(degree=1)
-        forecaster = clone(self.forecaster)
+            forecaster = PolynomialTrendForecaster(degree=1)
+        else:
+            forecaster = clone(self.forecaster)
         self.forecaster_ = forecaster.fit(z, X)
         self._is_fitted = True
         return self
